@@ -1,6 +1,7 @@
 from __future__ import annotations
 from typing import Any
 from sympy import Expr, Basic, Idx, Sum
+from sympy.printing.precedence import PRECEDENCE
 
 
 class IndexedSum(Expr):  # type: ignore[misc]
@@ -8,6 +9,9 @@ class IndexedSum(Expr):  # type: ignore[misc]
     Represents unevaluated Sum for expression with indexed variables.
 
     """
+
+    # same as SymPy's Sum and Product: the printers bracket it inside powers, factorials etc
+    precedence = PRECEDENCE["Mul"]
 
     def __new__(cls, function: Basic, *index_base: Idx, **assumptions: Any) -> IndexedSum:
         obj = Expr.__new__(cls, **assumptions)
